@@ -31,6 +31,12 @@ def explore(res, scale=1, seed=None):
     res.extra["in_coq_sample"] = res.extra.get("in_coq_sample", 0) + n
     if not ok:
         res.tie_broken("extraction", "vm_compute inside Coq disagrees with the extracted evaluator:\n" + slog)
+    # size classes the byte-exact family does not reach (the model would have to evaluate megabyte blocks): blocks beyond
+    # 1 MiB through the client with every compression mode (rows read back by the library's own decoders; one frame per
+    # block), and string values of 4 KiB .. 1 MiB on the vectored path the uncompressed INSERT uses (direct oracles)
+    from lib import colfam
+    colfam.run_direct(res, "c02big", 8 * scale, seed, builds=("default",))
+    colfam.run_direct(res, "c14long", 32 * scale, seed, builds=("default",))
     res.extra["rule"] = (
         "cases come from the seeded generator of harness/c09.go: 1..3 input columns (three quarters from the kinds whose "
         "WriteColumn chains column memory without copying: fixed-width, UInt8, FixedString, Bool and their Array / Nullable "
